@@ -279,13 +279,21 @@ fn build_case(ch: &mut Chooser, plan: &Plan) -> Case {
         }
         serde_json::to_string(&Value::Object(m)).unwrap()
     };
-    // presence: 0 all present, 1 extra unmapped file part, 2+j file j missing
-    let presence = ch.pick(sc, "presence", 2 + nfiles);
+    // presence: 0 all present, 1 extra unmapped file part, 2+j file j missing,
+    // 2+nfiles+j (nfiles ≥ 2) file j missing while another mapped file part is sent twice (what a repeated part name
+    // means is not stated, but the missing file stays missing whatever else is sent)
+    let presence_raw = ch.pick(sc, "presence", if nfiles >= 2 { 2 + 2 * nfiles } else { 2 + nfiles });
+    let duplicate_other = presence_raw >= 2 + nfiles;
+    let presence = if duplicate_other { presence_raw - nfiles } else { presence_raw };
     let max_file_size = [None, Some(4usize), Some(BIG)][if plan.ask_limits { ch.pick(sc, "max_file_size", 3) } else { 0 }];
     let max_num_files = [None, Some(1usize), Some(2)][if plan.ask_limits { ch.pick(sc, "max_num_files", 3) } else { 0 }];
     let mut file_ids: Vec<usize> = (0..nfiles).filter(|j| presence < 2 || *j != presence - 2).collect();
     if presence == 1 {
         file_ids.push(9);
+    }
+    if duplicate_other {
+        let first = file_ids[0];
+        file_ids.push(first);
     }
     let nfp = file_ids.len();
     // sizes relative to the limit L
@@ -349,7 +357,7 @@ fn build_case(ch: &mut Chooser, plan: &Plan) -> Case {
         "operations": if batch { "batch of 2" } else { "single" },
         "map": map_entries.iter().map(|(k, v)| json!({k.as_str(): v})).collect::<Vec<_>>(),
         "file_parts": files.iter().map(|f| json!({"name": f.name, "filename": f.filename, "size": f.content.len()})).collect::<Vec<_>>(),
-        "presence": match presence { 0 => "all present".to_string(), 1 => "extra unmapped file part".to_string(), k => format!("file {} missing", k - 2) },
+        "presence": match presence { 0 => "all present".to_string(), 1 => "extra unmapped file part".to_string(), k => format!("file {} missing{}", k - 2, if duplicate_other { ", another mapped part sent twice" } else { "" }) },
         "part_order": order.iter().map(|p| match *p { 0 => "operations".to_string(), 1 => "map".to_string(), k => format!("file:{}", files[k - 2].name) }).collect::<Vec<_>>(),
         "max_file_size": max_file_size, "max_num_files": max_num_files,
         "content": if lookalike { "boundary look-alike" } else { "plain" },
@@ -711,7 +719,7 @@ pub fn run(cx: &Cx) {
          product of all structural dimensions with all 720 permutations (plain content); `cut-pairs` = default case × every pair of cut offsets × one Pending × flavour; `reads2` = ≤2 structural deviations (flavour \
          being one) × every single cut; `pending2` = ≤1 structural deviation × every single cut × one Pending. Non-trivial = executions accepted with ≥1 file bound exactly as mapped, or rejected as the reference demands (missing file / file too large / too many files).",
     );
-    cx.assume("a map path that names no existing variable, two files mapped to the same path, duplicate part names and a batch index out of range are outside the enumerated space (the statement does not say what they mean)");
+    cx.assume("a map path that names no existing variable, two files mapped to the same path, duplicate part names (except next to a missing file, where the expectation does not depend on them) and a batch index out of range are outside the enumerated space (the statement does not say what they mean)");
     cx.assume("an extra unmapped file part counts towards max_num_files and max_file_size (it is an uploaded file) and must not be bound anywhere");
     cx.assume("part orders other than operations, map, files are accepted by the code; had they been rejected that would not be judged (the multipart request spec fixes the order) — counted in nonspec_order_rejected");
     cx.assume("content is compared position-independently (pread) for every bound upload and additionally by a sequential read for the first upload of each file; that later clones of the same file share the descriptor offset is recorded, not judged");
